@@ -4,40 +4,7 @@ Properties without an entry are listed under not_applicable with the reason give
 import json, os, subprocess
 ROOT = os.path.dirname(os.path.dirname(os.path.abspath(__file__)))
 
-CLAIMED = {
- "C16": dict(
-  text="Lean 4 theorem compare_sign_eq_tuple: for all comma-free tables/id suffixes and ALL start keys, the sign of the model of region.Compare equals the component-wise byte order on (table,key,id); corollaries: strict total order, first region first, smaller/prefix table first, search key position. The model is tied to region.Compare by exhaustive small-scope + random differential runs (sign/panic) judged by the Lean spec; the search-key constants are regenerated from the source (Gen.Wire).",
-  note="Trusted: Lean kernel (axioms propext, Quot.sound); the hand-written model's correspondence to region.Compare is sampled (600k+ pairs per quick run); tools/extract for Gen.Wire.",
-  tech="Lean 4 proof (algebraic law: sign = tuple order) + differential correspondence"),
- "C17": dict(
-  text="Lean 4 theorems over definitions REGENERATED from rpc.go on every run (Gen.Backoff: start value, growth formula, shape of the wait; Gen.RetryLoop: what each error class does in SendRPC/SendBatch/lookup/establish loops): schedule_exact (16 ms … 8.192 s, 13.192 … 33.192 s, constant), monotone, bounded; for ALL outcome sequences the waits of a call are an initial segment of the schedule, a retry-later answer is always followed by a wait, connection-level failures are retried immediately at most twice (single and batched), lookups and region re-establishment back off on the same schedule; the wait has exactly two exits (timer, context). Correspondence: the real sleepAndIncreaseBackoff along the schedule with live, cancelled and expiring contexts.",
-  note="Trusted: Lean kernel; tools/extract (a wrong translation would be caught only where the real function is run: values up to 1.1 s quick / whole schedule thorough). Partial: upper bounds on waits are wall-clock; the loop models are tied to the Go loops through the regenerated per-class facts, not executed step by step.",
-  tech="Lean 4 proof over a regenerated model (closed-form schedule + induction over outcome sequences) + differential correspondence"),
- "C10": dict(
-  text="Lean 4 theorems: decode_encode / kvDecode_encode (the client's decoder and an independent KeyValue parser both recover exactly (row, family, qualifier, timestamp, type, value) and the bytes consumed, for all rows < 2^16, families < 2^8, any qualifier/value, all 64-bit timestamps, any trailing bytes), stream_roundtrip, encodings_agree (for every mutation kind, all four delete variants, timestamp set/unset, every map shape including nil/empty inner maps and EVERY iteration order of the Go maps, the cellblock form and the protobuf form denote the same multiset of cells; the panic in valuesToCellblocks is unreachable), count_eq_cells. Type codes and the length formula are regenerated from the source (Gen.Cell). Correspondence: real appendCellblock / cellFromCellBlock / valuesToCellblocks / valuesToProto vs the model and the independent decoder, exhaustive over boundary lengths and map shapes + seeded random.",
-  note="Trusted: Lean kernel; tools/extract for Gen.Cell; the reading of the protobuf form as cells follows HBase's ProtobufUtil and is not checked against HBase; slices modelled with cap = len; allocation of wire-declared sizes not modelled.",
-  tech="Lean 4 proof (round-trip laws, agreement of two encodings for all map orders) + differential correspondence with an independent decoder"),
- "C07": dict(
-  text="Lean 4 theorems about a model of SendBatch / findClients / waitForCompletion as a function of the batch, a routing oracle, per-call per-round answer scripts, the Go map iteration order and the point at which the batch context is seen done — quantified over ALL of them: positional (slot i only ever holds call i's own answer, location error or context error), success_kept (a success received for call i is returned as <msg, nil> whatever happens to the others, later rounds and cancellation included), every_call_ends, allOK_iff (the flag is true exactly when every error is nil). Correspondence: the real SendBatch driven through scripted fake region clients, exhaustive outcome sequences for <= 3 calls x <= 3 rounds, every cancel point, own contexts, blocked re-location, invalid entries at every position, random larger batches; judged by the Lean spec first, then compared with the model.",
-  note="Trusted: Lean kernel; Gen.Backoff via tools/extract; the model is tied to rpc.go by the differential run only; re-establishment is played by the harness through wrapped RegionInfo objects.",
-  tech="Lean 4 proof (invariant over retry rounds of a functional model) + differential correspondence"),
- "C12": dict(
-  text="Lean 4 theorems on the same SendBatch model plus multi.add / multi.toProto: invalid_rejected_unsent (mixed tables / duplicate / non-batchable at any position: nothing is queued, every slot has an error), round0_partition, per_region_order (inside every multi the actions of a region are the queued calls of that region in batch order, for any region order and dropped contexts), same_region_order across retries, only_retryable_resent, success_never_resent, ended_never_resent. Correspondence as C07, plus the per-region view of a real region.multi built from each queued slice and per-call execution counts.",
-  note="Trusted: as C07. At-least-once after a lost response is inherent and outside the property.",
-  tech="Lean 4 proof (sublist/order laws, only-retryable-resent) + differential correspondence"),
- "C03": dict(
-  text="Lean 4 theorems over ALL action sequences of a transition system of one region connection (actions = API calls and completions of net.Conn operations with environment-chosen results: every failure position of every Write unit / SetReadDeadline / Read, every initiator — writer, direct sender, reader, timeout, external Close — every interleaving at that granularity): single_owner (counting invariant: every handed call is in exactly one place), at_most_once, no_stranding (done and quiescent => every handed call was completed exactly once or its context had ended), failure_delivers_connErr, refused_after_done. Correspondence: event-log replay of the real region client on a gated in-memory net.Conn + monitors for double completion, stranded calls and refusal after failure.",
-  note="Trusted: Lean kernel; Model/Conn.lean is tied to region/client.go by exact replay of the real client's event log (every net.Conn operation gated on a scripted in-memory connection; quiescence by goroutine-state inspection) up to the first mutex contention, after which the Go scheduler decides and only the monitors judge; flushInterval = 0; conn.Close not a separate action; FIFO mutex hand-off; call ids do not wrap.",
-  tech="Lean 4 proof (inductive counting invariant over a labelled transition system) + trace replay of the implementation"),
- "C18": dict(
-  text="Lean 4 theorems on the same connection model: counter_tracks_outstanding and deadline_tracks_outstanding (in every reachable, not failed, quiescent state the in-flight counter equals the number of registered requests and the read deadline is armed iff something is outstanding — including responses that overtake the return of Write, responses for cancelled calls and multis), idle_never_times_out, timeout_fails_everything. Correspondence: replay + a monitor at every quiescent point of the implementation (counter drift, deadline armed while idle, deadline missing).",
-  note="Trusted: Lean kernel; Model/Conn.lean is tied to region/client.go by exact replay of the real client's event log (every net.Conn operation gated on a scripted in-memory connection; quiescence by goroutine-state inspection) up to the first mutex contention, after which the Go scheduler decides and only the monitors judge; flushInterval = 0; conn.Close not a separate action; FIFO mutex hand-off; call ids do not wrap. Wall-clock: only whether a deadline is armed is checked, not its value.",
-  tech="Lean 4 proof (invariant relating counter, registered requests, sends in progress and deadline) + trace replay"),
- "C02": dict(
-  text="Lean 4 theorems on the same connection model: delivery_correlates (a response-derived result reaches only a call whose request was registered under the wire id of that response), wire_ids_unique / fresh_wire_id (ids strictly increase; two items never share an id), wire_id_per_call. Correspondence: replay with 1..6 concurrent callers grouped into multis, responses in any order, permuted multi results, per-action and per-region exceptions, cells in protobuf form or in the trailing cellblock; every response carries the row of the request it answers and the monitor checks each caller got exactly its own row.",
-  note="Trusted: Lean kernel; Model/Conn.lean is tied to region/client.go by exact replay of the real client's event log (every net.Conn operation gated on a scripted in-memory connection; quiescence by goroutine-state inspection) up to the first mutex contention, after which the Go scheduler decides and only the monitors judge; flushInterval = 0; conn.Close not a separate action; FIFO mutex hand-off; call ids do not wrap. The per-action dispatch inside a multi (index, cell counts) is tied by the monitor and by C05/C11, not by this model (which delivers one result class per call).",
-  tech="Lean 4 proof (correlation invariant on wire ids) + trace replay with payload-carrying responses"),
-}
+CLAIMED = json.load(open(os.path.join(ROOT, 'tools', 'claims.json')))
 
 PENDING = "check not integrated yet (work in progress; see DESIGN.md build order)"
 
